@@ -1,6 +1,6 @@
 (* C15 - CNF encodings (verified checker) and exact enumeration of minimal correction subsets. *)
 From InfOCF Require Import Core Form Mcs Clause Cnf ThmCnf ThmRS ThmBlock.
-From InfOCF Require Import PyLib TieOpt TieOptV.
+From InfOCF Require Import PyLib TieOpt TieOptV TieOptX.
 From InfOCFGen Require Import SrcOpt.
 From Coq Require Import ZArith.
 
@@ -92,6 +92,20 @@ Theorem C15_source_get_violated_exact : forall n (nf:dict BinNums.Z (list (list 
   forall k, In k res <-> exists cl, In (k, cl) (flatz ig nf) /\ csatz m cl = false.
 Proof. exact tie_get_violated. Qed.
 Print Assumptions C15_source_get_violated_exact.
+(* exclude_violated is GENERATED too (the IDPool's id() is a parameter: whatever id it hands out for an index).  For blocked indices
+   k_1..k_m (distinct) whose helper ids are h_i and whose clause sets are c_i, the generated function returns, literal by literal, the
+   model's blocking constraint exclude [(h_1,c_1);...] - to which C15_blocking_constraint above applies when the h_i are fresh and distinct. *)
+Theorem C15_source_exclude_violated_is_model : forall n pid (nf:dict BinNums.Z (list (list BinNums.Z))) (ksel:list (BinNums.Z * (nat * cnf))),
+  (forall k h c, In (k, (h, c)) ksel -> pid k = Return (Z.of_nat h) /\ zdict_find nf k = Some (zcnf c)) ->
+  NoDup (map fst ksel) ->
+  py_exclude_violated n pid nf tt (map fst ksel) = Return (zcnf (exclude (map snd ksel))).
+Proof. exact src_exclude_is_model. Qed.
+Print Assumptions C15_source_exclude_violated_is_model.
+Example exclude_source_example :
+  py_exclude_violated 0 (fun k => Return (k + 100)%Z) [(5, [[1;2];[-3]]); (9, [[-1]])]%Z tt [9;5]%Z
+  = Return [[-1;-109]; [1;2;-105]; [-3;-105]; [109;105]]%Z.
+Proof. vm_compute. reflexivity. Qed.
+
 Example get_violated_source_example :
   py_get_violated_conditional 0 [(5, [[1;2];[-3]]); (7, [[3]]); (9, [[-1]])]%Z [1;-2;3]%Z 2%Z [7]%Z = Return [5;9]%Z
   /\ nvz [1;-2;3]%Z (flatz [7]%Z [(5, [[1;2];[-3]]); (7, [[3]]); (9, [[-1]])]%Z) = 2.
